@@ -26,6 +26,23 @@ EXPLICIT_CASTS = {'CStyleCastExpr', 'CXXFunctionalCastExpr', 'CXXStaticCastExpr'
 _KNOWN = None
 
 
+def expandable_helper(callee):
+    """a function whose body is straight-line: declarations of initialised locals followed by exactly one return statement
+    (no loop, branch, try or other statement) - the only kind Fn.term() substitutes for its call"""
+    if not callee.body:
+        return False
+    b = callee.n(callee.body)
+    if b['c'] != 'CompoundStmt':
+        return False
+    kinds_ = [callee.n(c)['c'] for c in b.get('ch', [])]
+    if kinds_.count('ReturnStmt') != 1 or kinds_[-1] != 'ReturnStmt':
+        return False
+    if any(k not in ('DeclStmt', 'ReturnStmt') for k in kinds_):
+        return False
+    rets = [r for r in callee.returns() if callee.n(r)['ch']]
+    return len(rets) == 1
+
+
 def known_names():
     """the vocabulary frozen by rules/mk_known.py (functions and closure variables of the tree the rules were written for)"""
     global _KNOWN
@@ -470,10 +487,12 @@ class Fn:
             obj = T(nd['obj']) if nd.get('obj') else None
         else:
             return None
-        rets = [r for r in callee.returns() if callee.n(r)['ch']]
-        if len(rets) != 1 or len(callee.params) != len(actual):
+        if not expandable_helper(callee) or len(callee.params) != len(actual):
             return None
+        rets = [r for r in callee.returns() if callee.n(r)['ch']]
         body = callee.term(callee.n(rets[0])['ch'][0], True, depth + 1)
+        if any(isinstance(x, tuple) and x and x[0] == 'lambda' for x in _all_subterms(body)):
+            return None     # the helper builds a closure of its own: leave it to the rules that know how to enter it
         sub = {('param', p['name']): a for p, a in zip(callee.params, actual)}
 
         def rep(x):
